@@ -1,4 +1,4 @@
-CONSTANTS NMAX = 5  LMAX = 12  ITERS = 2  KEYS = {0}  EXACTS = {TRUE, FALSE}  TIMEDS = {FALSE}  MAXW = 0
+CONSTANTS NMAX = 5  LMAX = 12  ITERS = 1  KEYS = {0}  EXACTS = {TRUE, FALSE}  TIMEDS = {FALSE}  MAXW = 0
 SPECIFICATION Spec
-INVARIANTS TypeOK C12_All
+INVARIANTS TypeOK C12_All EmitReplay
 CHECK_DEADLOCK FALSE
